@@ -49,5 +49,10 @@ ROWS = {
   "property-based testing (rapid) against the byte-offset model computed by an ISOBMFF box-tree writer (position-coded payloads)",
   "Generated box trees (CR3 and HEIF style, depth up to 5, 32/64-bit sizes, full boxes, tiny last children) are read step by step through a caller-supplied bufio.Reader with recording callbacks; position after every top-level box, callback count/order, the exact file byte range each callback's reader yields, header fields and PreviewCR3 are compared with the writer's model; in the malformed variant one inner box declares a wrong size and whatever a callback reads must stay inside every enclosing box.",
   "Trusted: the tree writer and its offset model in props/c11. The last top-level box is an mdat >= 64 bytes. Reads past a parent are observable through callbacks and the final position only (the bufio.Reader reads ahead by design)."),
+
+ "C14": ("exploration",
+  "property-based testing (rapid) with structure-addressed size-field edits; runtime.MemStats.TotalAlloc measured in an isolated, address-space-limited worker",
+  "Samples and encoder output in every container get 1-3 count/size/length fields overwritten with 2^24..2^32-1 or len+-1 (either byte order), plus CR3 files whose PRVW box states an arbitrary preview size; each call runs in a worker process (GOMAXPROCS=1, ulimit -v 8 GiB, one warming call before) and the TotalAlloc delta must stay <= 4 MiB + 16 x len(b); OOM death and makeslice panics are violations.",
+  "Trusted: runtime.MemStats.TotalAlloc as the allocation measure; the worker protocol. Inputs <= 256 KiB."),
 }
 NOT_APPLICABLE = {}
